@@ -119,7 +119,10 @@ def apply_op(s, op, v):
         bad = pick(["period(1500ms)", "period(3s), stride(2s)", "stride(1500ms)", "period(7s), period(2s)", "stride(-2s)", "stride(0s)"])
         return re.sub(r"period\([^)]*\)(, stride\([^)]*\))?", bad, s) if "period(" in s else s.replace(" GROUP BY ", " GROUP BY " + bad + ", ", 1) if " GROUP BY" in s else s + " GROUP BY " + bad
     if op == "lua_scalar":
-        return s.replace(" FROM t", " FROM t WHERE " + pick(["LUA('return 1', 'k', 'a') = 1", "LUA('x', a, b) = 'y'", "LUA('x', ARRAY(a), 'z') = 1", "ANY() = 1", "SPLIT(a) = 'x'", "DECODE(a) = 1",
+        return s.replace(" FROM t", " FROM t WHERE " + pick(["LUA('return 1', 'k', 'a') = 1", "LUA('x', a, b) = 'y'", "LUA('x', ARRAY(a), 'z') = 1",
+                                                             # the P prefix marks a function for pushdown: the same functions under another name
+                                                             "PLUA('return 1', 1, 2) = 'x'", "PLUA('x', a, ARRAY(b)) = 'y'", "PSPLIT(a) = 'x'", "PLEN(1, 2) = 1",
+                                                             "PCONCAT() = 'x'", "PSUBSTR(a, 'x', 'y') = 'z'", "PNOSUCH(a) = 1", "PP(a) = 1", "P(a) = 1", "ANY() = 1", "SPLIT(a) = 'x'", "DECODE(a) = 1",
                                                              "ARRAY(a) = 1", "CONCAT() = 'x'", "SUBSTR(a, 'x', 'y') = 'z'", "LEN(1, 2) = 1", "RAND(1) > 0"]), 1)
     if op == "subquery_in_select":
         return sel_add(s, pick(["(SELECT f FROM t)", "(SELECT 1)", "EXISTS (SELECT f FROM t)", "CASE WHEN f > 1 THEN 1 ELSE 2 END"]))
@@ -310,6 +313,11 @@ def check_C16(args):
                 if res["op"] == "probe":
                     n_probe += 1
                     if int(res["got"]) != res["expected"]:
+                        if known_gap and sc.get("gap"):
+                            # D12 again: the row store is busy allocating the gap (gigabytes) or has
+                            # run into the address-space limit without the runtime giving up yet
+                            V.known_finding(known_gap)
+                            continue
                         key = "stall"
                         if key not in seen_viol:
                             seen_viol[key] = 1
